@@ -25,7 +25,18 @@ def tagger(c, im):
     vias = sum(1 for op in c['ops'] if op[0] in ('via', 'viap', 'viaw'))
     webs = sum(1 for op in c['ops'] if op[0] == 'viaw')
     lost = sum(1 for op in c['ops'] if op[0] == 'vialost')
-    return (answers + ['asked=%d' % min(asked, 3), 'via=%d' % min(vias, 3), 'via-failed=%d' % min(lost, 2), 'via-web-agent=%d' % min(webs, 2)]), (asked >= 2 or vias >= 2)
+    # connections started while their circuit was not BUILT yet (the step hands out a Deferred and nothing else)
+    waited = sum(1 for op, t in zip(c['ops'], im[1:]) if op[0] == 'via' and [o[0] for o in t['outs']] == ['d'] and not _built_then(c, im, op))
+    return (answers + ['asked=%d' % min(asked, 3), 'via=%d' % min(vias, 3), 'via-failed=%d' % min(lost, 2), 'via-web-agent=%d' % min(webs, 2),
+                       'via-before-built=%d' % min(waited, 2)]), (asked >= 2 or vias >= 2)
+
+
+def _built_then(c, im, op):
+    i = c['ops'].index(op)
+    for row in im[i]['dump']['cobj']:
+        if row[0] == op[1]:
+            return row[2] == 'BUILT'
+    return False
 
 
 def project(tr):
@@ -226,6 +237,13 @@ def corpus():
          'ops': [['att', 0], ['ack', True], ['via', 0, '127.0.0.1', 5001], ['viap', 0, '127.0.0.1', 5002], ['viap', 0, '127.0.0.1', 5003],
                  ['via', 1, '127.0.0.1', 5004], ['vialost', '127.0.0.1', 5002], new(1, None), ['ack', True], new(4, None), ['ack', True],
                  ['vialost', '127.0.0.1', 5003], new(2, None), ['ack', True], new(3, None), ['ack', True]]},
+        # connections started while Tor is still building the circuit wait for BUILT; those of a circuit that fails fail with it, in the
+        # order they began to wait (a when_built wait among them); their streams, should Tor report any, are not attached anywhere
+        {'snap_c': ['5 LAUNCHED PURPOSE=GENERAL', '6 EXTENDED %s PURPOSE=GENERAL' % r1], 'snap_s': [], 'pre': [],
+         'ops': [['att', 0], ['ack', True], ['via', 0, '127.0.0.1', 5001], ['wb', 1], ['via', 1, '127.0.0.1', 5002], ['wb', 1], ['via', 1, '127.0.0.1', 5003],
+                 ['via', 0, '127.0.0.1', 5004], ['circ', '6 FAILED %s REASON=TIMEOUT' % r1, []], new(1, None), ['ack', True],
+                 ['circ', '5 EXTENDED %s PURPOSE=GENERAL' % r1, []], ['circ', '5 BUILT %s PURPOSE=GENERAL' % r1, []],
+                 new(4, None), ['ack', True], new(2, None), ['ack', True], new(3, None), ['ack', True]]},
         # two HTTP requests to the same origin through one Circuit.web_agent(): each is a connection of its own, from its own local
         # port, and each one's stream goes to that circuit; a later unrelated stream from the first port is left to Tor
         {'snap_c': ['5 BUILT %s PURPOSE=GENERAL' % r1], 'snap_s': [], 'pre': [],
